@@ -102,6 +102,18 @@ func c20Cases_() []limitCase {
 	out = append(out, limitCase{name: "array/store-in-loop/1000000", prog: "BEGIN { print 'marker'; for (i = 0; i < 4; i++) { a = []; a[1000000] = i } print 'done' }", want: "ok", marker: "marker\n", okTail: "done\n"})
 	out = append(out, limitCase{name: "array/store-in-loop/2000000", prog: "BEGIN { print 'marker'; for (i = 0; i < 4; i++) { a = []; a[2000000] = i } print 'done' }", want: "error", marker: "marker\n"})
 	out = append(out, limitCase{name: "array/grow-by-push/100000", prog: "BEGIN { print 'marker'; a = []; for (i = 0; i < 100000; i++) { a.push(i) } print a.length(); print 'done' }", want: "ok", marker: "marker\n", okTail: "100000\ndone\n"})
+	// the limit is on the index, not on the distance from the current end
+	out = append(out, limitCase{name: "array/store-long-then-beyond/1000000+2000000", prog: "BEGIN { print 'marker'; a[1000000] = 1; print 'first'; a[2000000] = 2; print 'done' }", want: "error", marker: "marker\nfirst\n"})
+	out = append(out, limitCase{name: "array/store-long-then-beyond/1000000+3000000", prog: "BEGIN { print 'marker'; a = [1]; a[1000000] = 1; print 'first'; a[3000000] = 2; print 'done' }", want: "error", marker: "marker\nfirst\n"})
+	out = append(out, limitCase{name: "array/store-stepping/1000000-per-step", prog: "BEGIN { print 'marker'; for (i = 1; i < 40; i++) { a[i * 1000000] = i } print 'done' }", want: "error", marker: "marker\n"})
+	out = append(out, limitCase{name: "array/store-stepping-by-push-and-index", prog: "BEGIN { print 'marker'; a[1000000] = 1; for (i = 0; i < 1000; i++) { a.push(i) } a[a.length() + 1000000] = 2; print 'done' }", want: "error", marker: "marker\n"})
+	out = append(out, limitCase{name: "array/read-long-then-beyond", prog: "BEGIN { print 'marker'; a[1000000] = 1; v = a[5000000]; print a.length() < 2000000; print 'done' }", want: "either", marker: "marker\n", okTail: "true\ndone\n"})
+	// ordinary long-running programs at shallow depth are not refused: the limits bound nesting, not history
+	for _, l := range c07Longs() {
+		out = append(out, limitCase{name: "long-history/" + l.name, prog: "BEGIN { print 'marker' } " + l.prog, input: []byte(l.input), want: "ok", marker: "marker\n", okTail: l.want})
+	}
+	out = append(out, limitCase{name: "long-history/deep-then-long", prog: "function r(n) { if (n >= 900) { return 0 } return 1 + r(n + 1) } BEGIN { print 'marker'; for (i = 0; i < 300; i++) { t = t + r(0) } print t }", want: "ok", marker: "marker\n", okTail: "270000\n"})
+	out = append(out, limitCase{name: "long-history/printf-many", prog: "BEGIN { print 'marker'; for (i = 0; i < 20000; i++) { printf('%8s', 'x') } print ''; print 'done' }", want: "ok", marker: "marker\n", okTail: "done\n"})
 	out = append(out, limitCase{name: "array/huge-then-small", prog: "BEGIN { print 'marker'; a[2000000] = 1 }", want: "error", marker: "marker\n"})
 
 	// printf width
@@ -165,7 +177,7 @@ var c20List = c20Cases_()
 func c20Run(c *Case) {
 	lc := c20List[c.Idx]
 	var files []InFile
-	if lc.input != nil {
+	if len(lc.input) > 0 {
 		files = []InFile{{Name: "in.json", Data: lc.input}}
 	}
 	lib := RunLib(lc.prog, files, nil, RunOpts{Budget: 2000000000})
@@ -210,7 +222,7 @@ func c20Run(c *Case) {
 func init() {
 	register(&Prop{
 		ID: "C20", Level: "exploration",
-		Rule:             "enumerated boundary programs, each run in its own subprocess under a 4 GiB address-space limit (process death, also by running out of memory, is a violation): recursion of 6 shapes (direct, mutual-2, mutual-3, through match expression body, through match block body, through an argument) x 5 per-level expression nestings (none, 100 / 3000 prefix operators, 100 parenthesised additions, 3000 array literals) x depth targets {1000, 3000, unbounded}, plus recursion from a rule pattern and with two recursive calls; array stores and reads at indices 999999 / 1000000 / 1048576 / 1048577 / 1999999 / 2000000 / 1e9 / 1e18 / 1e23 / -1 / -1e18 / 0.5 on empty and non-empty arrays, through $-paths, through freshly created nested paths, and repeated in a loop; printf widths 4096 / +-65536 / 065536 / +-65537 / 1e5 / +-1e10 / 30 digits for %s %f %v; JSON input nested 1000 / 5000 / 9999 / 10001 / 20000 / 1000000 deep in arrays, objects and mixtures followed by a second value, and a million unclosed brackets. Oracle: bands, not today's constants (1000 frames, index <= 1e6, width <= 65536, nesting <= 5000 must work; unbounded recursion, index >= 2e6, width > 65536, nesting >= 20000 must be an ordinary runtime/JSON error; in between either), the marker printed before the step must be kept. Evidence: peak RSS per family and the frame depth at refusal (hook). Every case is non-trivial.",
+		Rule:             "enumerated boundary programs, each run in its own subprocess under a 4 GiB address-space limit (process death, also by running out of memory, is a violation): recursion of 6 shapes (direct, mutual-2, mutual-3, through match expression body, through match block body, through an argument) x 5 per-level expression nestings (none, 100 / 3000 prefix operators, 100 parenthesised additions, 3000 array literals) x depth targets {1000, 3000, unbounded}, plus recursion from a rule pattern and with two recursive calls; ordinary long histories at shallow depth (70000-150000 loop rounds / calls / input values with signals, 300 x 900-deep recursion) must not be refused; array stores and reads at indices 999999 / 1000000 / 1048576 / 1048577 / 1999999 / 2000000 / 1e9 / 1e18 / 1e23 / -1 / -1e18 / 0.5 on empty and non-empty arrays, through $-paths, through freshly created nested paths, repeated in a loop, and beyond the limit on an array that is already a million long (the limit is on the index, not on the distance); printf widths 4096 / +-65536 / 065536 / +-65537 / 1e5 / +-1e10 / 30 digits for %s %f %v; JSON input nested 1000 / 5000 / 9999 / 10001 / 20000 / 1000000 deep in arrays, objects and mixtures followed by a second value, and a million unclosed brackets. Oracle: bands, not today's constants (1000 frames, index <= 1e6, width <= 65536, nesting <= 5000 must work; unbounded recursion, index >= 2e6, width > 65536, nesting >= 20000 must be an ordinary runtime/JSON error; in between either), the marker printed before the step must be kept. Evidence: peak RSS per family and the frame depth at refusal (hook). Every case is non-trivial.",
 		NumCases:         func(tier string) int { return len(c20List) },
 		Run:              c20Run,
 		MinConclusive:    func(tier string) int { return len(c20List) * 9 / 10 },
